@@ -1,6 +1,9 @@
 package main
 
-import "fmt"
+import (
+	"fmt"
+	"strings"
+)
 
 // Scenario catalogue (DESIGN.md 2.5). kind is "func" (Go-function bodies) or "cmd"
 // (vcmd commands through the exec seam).
@@ -80,6 +83,16 @@ func catalog(p ScenParams) *WSpec {
 		j := ProcSpec{Name: "j", Kind: kind, Ins: []string{"a", "b"}, Outs: []OutSpec{{Name: "out", Pattern: "{i:a}.j"}}}
 		w.Procs = []ProcSpec{src, src2, simpleProc("p", kind), j}
 		w.Edges = []Edge{fe("src", "out", "p", "in"), fe("p", "out", "j", "a"), fe("src2", "out", "j", "b")}
+	case "gjoin": // src(k) -> StreamToSubStream -> {i:x|join:SEP}
+		f := strings.SplitN(p.Extra, "|", 2) // "SEP|modifier"
+		j := ProcSpec{Name: "j", Kind: "joiner", JoinSep: f[0]}
+		if len(f) > 1 {
+			j.JoinMod = f[1]
+		}
+		sub := ProcSpec{Name: "sub", Kind: "substream", Ins: []string{"in"}}
+		w.Procs = []ProcSpec{src, sub, j}
+		w.Edges = []Edge{fe("src", "out", "sub", "in"), fe("sub", "substream", "j", "x")}
+		return w
 	case "g7": // two-output task feeding two consumers
 		pp := ProcSpec{Name: "p", Kind: kind, Ins: []string{"in"}, Outs: []OutSpec{{Name: "o1", Pattern: "{i:in}.o1"}, {Name: "o2", Pattern: "{i:in}.o2"}}}
 		w.Procs = []ProcSpec{src, pp, simpleProc("q", kind), simpleProc("r", kind)}
